@@ -301,7 +301,7 @@ def check(tier: str, seed: int) -> Result:
         x1 = run_harness(name, [])
         if x1.trace != x0.trace or x1.obs != x0.obs:
             raise sched.ReplayDivergence(f"{name}: default schedule not reproducible")
-        rs = roots_for(name, bound)
+        rs = roots_for(name, bound) if not x0.livelock else []
         for k in range(0, len(rs), 8):
             jobs.append((name, bound, rs[k:k + 8], cap))
     jobs = core.seeded_order(jobs, seed)
